@@ -358,8 +358,14 @@ def load(file, **options):
 
     # eval search for correct columns:
     index = {}
+    # the headings between the byteorder column and the "Value" column (the one in front of "Name / Phys. Range") are
+    # ECU names, whatever they look like: an ECU may be called "ID", "ByteorderGw" or "CycleCtrl"
+    headings = [sh.cell(0, i).value for i in range(sh.ncols)]
+    value_column = next((i - 1 for i, heading in enumerate(headings) if "Name / Phys" in heading), sh.ncols)
     for i in range(sh.ncols):
-        value = sh.cell(0, i).value
+        value = headings[i]
+        if "byteorder" in index and index["byteorder"] < i < value_column:
+            continue
         if value == "ID":
             index['ID'] = i
         elif "Frame Name" in value:
